@@ -5,8 +5,10 @@ Confirms a seeded change produced by an independent sub-agent (worktree /tmp/see
 import json, os, shutil, subprocess, sys
 P, v = sys.argv[1], sys.argv[2]
 checks = sys.argv[3:] or [P]
-src = "/tmp/seed_%s/seed/%s" % (P, v)
-out = subprocess.run(["/verif/tools/try_seed.sh", src, "/tmp/seed_%s" % P] + checks, stdout=subprocess.PIPE, stderr=subprocess.STDOUT, text=True).stdout
+PREFIX = os.environ.get("SEEDPREFIX", "seed")      # seed (round 1) / seed2 (round 2)
+TAG = os.environ.get("SEEDTAG", "")                 # suffix of the filed variant, e.g. "2"
+src = "/tmp/%s_%s/seed/%s" % (PREFIX, P, v)
+out = subprocess.run(["/verif/tools/try_seed.sh", src, "/tmp/%s_%s" % (PREFIX, P)] + checks, stdout=subprocess.PIPE, stderr=subprocess.STDOUT, text=True).stdout
 print(out)
 lines = out.splitlines()
 def after(tag):
@@ -20,7 +22,7 @@ for i, l in enumerate(lines):
     if l.startswith("== check "):
         c = l.split()[2]; rc = l.split("rc=")[1]
         caught[c] = dict(rc=int(rc), verdicts=sorted({x.split("'")[1].split("/")[0] for x in lines[i + 1:i + 8] if "violation class" in x}))
-dst = "/verif/seeded/%s-%s" % (P, v)
+dst = "/verif/seeded/%s-%s%s" % (P, v, TAG)
 os.makedirs(dst, exist_ok=True)
 for f in ("patch.diff", "demo.rs"):
     shutil.copy(os.path.join(src, f), dst)
